@@ -86,7 +86,7 @@ fn main() {
             println!("name {} {}", i, hex((e.ser_type_name)().as_bytes()));
         }
         for (i, e) in sreg.iter().enumerate() {
-            println!("sname {} {} {}", i, hex((e.vec_name)().as_bytes()), hex((e.wrap_name)().as_bytes()));
+            println!("sname {} {} {} {}", i, hex((e.vec_name)().as_bytes()), hex((e.wrap_name)().as_bytes()), hex((e.wrape_name)().as_bytes()));
         }
         return;
     }
